@@ -20,11 +20,17 @@ ASSUMPTIONS = ["R2 (vlib/ref/includes.py): active-file stack model written from 
                "not judged: tokens directly following an include without quoted name"]
 
 
-def body(name, dirs, marker=None):
+def body(name, dirs, marker=None, r=None):
     marker = marker or name
     s = marker + "1"
     for j, d in enumerate(dirs):
-        s += "\ninclude " + ('"%s"' % d if d else "") + " " + marker + str(j + 2)
+        kw = "include"
+        sep = "\n"
+        if r is not None:
+            # every documented spelling; directives sharing a line; decoys that are NOT directives
+            kw = r.choice(["include", "Include", "INCLUDE"])
+            sep = r.choice(["\n", "\n", " ", "\n// include \"decoy_missing\"\n", "\n\"include\" ", "\ninclud "])
+        s += sep + kw + " " + ('"%s"' % d if d else "") + " " + marker + str(j + 2)
     return s
 
 
@@ -84,7 +90,7 @@ def gen(spec):
             for i, nm in enumerate(names):
                 k = r.randint(0, 4)
                 ds = [r.choice(names + [nm, "missing1", "some/missing file.theo", None]) for _ in range(k)]
-                files[nm] = body(nm, ds, marker="k%d_" % i)
+                files[nm] = body(nm, ds, marker="k%d_" % i, r=r)
             main = r.choice(names + ["nomain"] if r.random() < 0.1 else names)
             out.append((files, main))
     return out
